@@ -65,11 +65,22 @@ def run(repo, chk, tier):
 
     check_sumvar(repo, chk)
     check_sumvar_call(repo, chk)
+    # the gradient of a fit fraction that get_frac contracts with the covariance matrix (shared with C03): quotient rule
+    # for the single fractions and for the interference terms (which have FF_i + FF_j subtracted)
+    from ..tapescope import check_tape_scope
+    from .c03 import frac_grad_by_interpretation
+
+    chk.rule("A-frac", "FitFractions.get_frac_grad interpreted for three resonances with symbolic integrals and gradients: FF_i = I_i/I, FF_ij = I_ij/I - FF_i - FF_j and every gradient is the exact derivative (quotient rule) of its fraction")
+    chk.rule("A-index", "get_frac_grad visits every index pair")
+    if not frac_grad_by_interpretation(repo, chk):
+        raise AnalysisError("FitFractions.get_frac_grad is not interpretable: the gradients behind the fit-fraction errors are not decided")
+    check_tape_scope(repo, chk, ["tf_pwa/fitfractions.py"], min_functions=2)
     chk.rule("E6-err", "NumberError operator rules: err^2 == sum (d val/d x_i)^2 err_i^2 (exact identity) and err >= 0 on the whole domain")
     chk.rule("E3-quad", "derived-quantity errors are sqrt(g . V . g) with one gradient and the matrix passed in; hesse errors are sqrt(|diag(inv H)|)")
     chk.assume("domain: values real (bases of powers / arguments of log positive), input errors positive; scalars real and non-zero")
     chk.trusted_base[:] = ["AST->sympy translator sa/sym.py", "sympy diff / ring normaliser", "sympy assumption engine for sign decisions (cross-checked numerically)"]
     clause_a(repo, chk, tier)
+    clause_exact_power(repo, chk)
     clause_b(repo, chk, tier)
     clause_c(repo, chk)
     # V_y = y' V_x y' for bounded parameters (shared with C07): rows and columns scaled
@@ -81,6 +92,60 @@ def run(repo, chk, tier):
     from .c07 import check_constraint_once
 
     check_constraint_once(repo, chk, ("hess",), rule="H-once")
+
+
+def _mk_number(cls, args, kwargs):
+    """NumberError(value, error) as an object of the abstract run (so that results can be operands again)"""
+    a = list(args)
+    if a and isinstance(a[0], SelfObj) and a[0].cls is cls and not a[0].attrs:
+        a = a[1:]
+    v = a[0] if a else kwargs.get("value")
+    e = a[1] if len(a) > 1 else kwargs.get("error", sp.Integer(1))
+    return SelfObj(cls, {"_value": v, "_error": e})
+
+
+def _real_log(tr, a):
+    """numpy's real logarithm: nan for a negative argument, -inf at zero (a complex logarithm would hide 0 * log(-2))"""
+    a = sp.sympify(a)
+    if a.is_number and a.is_real:
+        if a < 0:
+            return sp.nan
+        if a == 0:
+            return -sp.oo
+    return sp.log(a)
+
+
+EXACT_POWERS = [
+    # (value, error, exact exponent): integer powers are defined for every real base
+    (sp.Integer(-2), sp.Rational(1, 10), 2), (sp.Integer(-2), sp.Rational(1, 10), 3), (sp.Integer(0), sp.Rational(1, 10), 2),
+    (sp.Integer(0), sp.Rational(1, 10), 1), (sp.Rational(-1, 2), sp.Rational(1, 5), -2), (sp.Integer(3), sp.Rational(1, 10), 2),
+]
+
+
+def clause_exact_power(repo, chk):
+    """x ** n with an exact exponent, interpreted at concrete points of the whole real line"""
+    cls = repo.cls(ERRNUM)
+    fn = cls.methods.get("__pow__")
+    if fn is None:
+        raise AnalysisError("anchor vanished: NumberError.__pow__")
+    chk.rule("E6-domain", "NumberError.__pow__ with an exact integer exponent, interpreted at concrete rational points (negative, zero and positive bases; numpy's real logarithm): the value is x**n and the error is |n x**(n-1)| s, finite everywhere")
+    for x, e, n in EXACT_POWERS:
+        me = SelfObj(cls, {"_value": x, "_error": e})
+        hooks = {"builtin.isinstance": lambda tr, args, kwargs, node: isinstance(args[0], SelfObj), cls.key: lambda tr, args, kwargs, node: _mk_number(cls, args, kwargs), "unary:log": _real_log}
+        tr = Translator(repo, hooks=hooks)
+        try:
+            res = tr.call_fn(fn, [sp.Integer(n)], self_obj=me)
+        except Unmodelled as ex:
+            raise AnalysisError("NumberError.__pow__ cannot be interpreted at (%s +- %s) ** %s: %s" % (x, e, n, ex))
+        if not (isinstance(res, SelfObj) and "_value" in res.attrs and "_error" in res.attrs):
+            raise AnalysisError("NumberError.__pow__ does not return NumberError(val, err)")
+        val, err = sp.simplify(sp.sympify(res.attrs["_value"])), sp.simplify(sp.sympify(res.attrs["_error"]))
+        want_v, want_e = x ** n, sp.Abs(n * x ** (n - 1)) * e
+        ok = (not val.has(sp.nan, sp.zoo, sp.oo)) and (not err.has(sp.nan, sp.zoo, sp.oo)) and sp.simplify(val - want_v) == 0 and sp.simplify(err - want_e) == 0
+        chk.oblige("E6-domain", "(%s +- %s) ** %s == %s +- %s" % (x, e, n, want_v, want_e), ok)
+        if not ok:
+            chk.violation("E6-domain", fn.key, "exact-power:%s^%s" % (x, n), "(%s +- %s) ** %s evaluates to %s +- %s, first-order propagation gives %s +- %s" % (x, e, n, val, err, want_v, want_e), file="tf_pwa/err_num.py", line=fn.lineno)
+    chk.require_count("E6-domain", len(EXACT_POWERS))
 
 
 def clause_a(repo, chk, tier):
@@ -102,16 +167,16 @@ def clause_a(repo, chk, tier):
             def isinst(tr, args, kwargs, n, _o=other_n):
                 return args[0] is _o or isinstance(args[0], SelfObj)
 
-            hooks = {"builtin.isinstance": isinst, cls.key: lambda tr, args, kwargs, n: ("NumberError", args[0], args[1] if len(args) > 1 else kwargs.get("error"))}
+            hooks = {"builtin.isinstance": isinst, cls.key: lambda tr, args, kwargs, n: _mk_number(cls, args, kwargs)}
             tr = Translator(repo, hooks=hooks)
             args = [] if br == "-" else [other_n if br == "N" else c]
             try:
                 res = tr.call_fn(fn, args, self_obj=me)
             except Unmodelled as e:
                 raise AnalysisError("NumberError.%s[%s] is not a single-path kernel: %s" % (mname, br, e))
-            if not (isinstance(res, tuple) and res and res[0] == "NumberError"):
+            if not (isinstance(res, SelfObj) and res.cls is cls and "_value" in res.attrs and "_error" in res.attrs):
                 raise AnalysisError("NumberError.%s does not return NumberError(val, err)" % mname)
-            val, err = sp.sympify(res[1]), sp.sympify(res[2])
+            val, err = sp.sympify(res.attrs["_value"]), sp.sympify(res.attrs["_error"])
             inputs = [(a, ea)] + ([(b, eb)] if br == "N" else [])
             want2 = sum(sp.diff(val, x) ** 2 * e ** 2 for x, e in inputs)
             tag = "%s[%s]" % (mname, {"N": "NumberError", "S": "scalar", "-": "unary"}[br])
